@@ -21,6 +21,11 @@ def overlap(c, img, res="ok"):
     return {"op": "overlap", "caller": c, "image": img, "result": res}
 
 
+def cancel(c):
+    """The context of caller c's waiting Pull is cancelled."""
+    return {"op": "cancel", "caller": c, "image": ""}
+
+
 def well_formed(steps):
     """Done only while a pull of the image is running; a caller blocked in Pull cannot call again."""
     waiting, blocked = {}, set()
@@ -28,6 +33,8 @@ def well_formed(steps):
     for s in steps:
         flat += [done(s["image"], s["result"]), req(s["caller"], s["image"])] if s["op"] == "overlap" else [s]
     for s in flat:
+        if s["op"] == "cancel":
+            continue    # no effect on the current code: the caller stays blocked in Pull
         if s["op"] == "req":
             if s["caller"] in blocked:
                 return False
@@ -60,7 +67,51 @@ CORPUS = [
     [req(0, "a"), req(1, "a"), overlap(2, "a", "err"), req(0, "a"), done("a")],
     [req(0, "a"), req(1, "b"), overlap(2, "a"), overlap(3, "b", "err"), overlap(0, "a"), done("b")],
     [req(0, "a"), overlap(1, "a"), overlap(0, "a"), overlap(1, "a", "err"), done("a")],
+    # context cancellation of waiting callers
+    [req(0, "a"), cancel(0), done("a")],
+    [req(0, "a"), req(1, "a"), cancel(0), done("a"), req(2, "a"), done("a", "err")],
+    [req(0, "a"), req(1, "a"), req(2, "b"), cancel(1), cancel(2), done("b", "err"), req(2, "a"), done("a"), req(1, "b")],
+    [req(0, "a"), req(1, "a"), cancel(0), overlap(2, "a"), cancel(2), cancel(3), done("a")],
 ]
+
+
+def blocked_after(seq):
+    """Callers blocked in Pull after seq (on the current code a cancelled caller stays blocked)."""
+    waiting, blocked = {}, []
+    for s in seq:
+        if s["op"] == "cancel":
+            continue
+        if s["op"] in ("done", "overlap"):
+            for c in waiting.get(s["image"], []):
+                blocked.remove(c)
+            waiting[s["image"]] = []
+        if s["op"] in ("req", "overlap"):
+            blocked.append(s["caller"])
+            waiting.setdefault(s["image"], []).append(s["caller"])
+    return blocked
+
+
+def cancel_variants(schedules):
+    """Every schedule with one cancel inserted: at every position, for every caller blocked there."""
+    out = []
+    for seq in schedules:
+        for k in range(1, len(seq) + 1):
+            for c in blocked_after(seq[:k]):
+                out.append(seq[:k] + [cancel(c)] + seq[k:])
+    return out
+
+
+def sprinkle_cancels(r, schedules, p):
+    out = []
+    for seq in schedules:
+        new = []
+        for s in seq:
+            new.append(s)
+            b = blocked_after(new)
+            if b and r.random() < p:
+                new.append(cancel(r.choice(b)))
+        out.append(new)
+    return out
 
 
 def overlap_variants(schedules):
@@ -150,6 +201,8 @@ def img_no(img):
 def step_term(s):
     if s["op"] == "req":
         return "Plain (Req %d %d)" % (s["caller"], img_no(s["image"]))
+    if s["op"] == "cancel":
+        return "Plain (Cancel %d)" % s["caller"]
     if s["op"] == "overlap":
         return "Overlap %d %s %d" % (img_no(s["image"]), cB(s.get("result") != "err"), s["caller"])
     return "Plain (Done %d %s)" % (img_no(s["image"]), cB(s.get("result") != "err"))
@@ -157,7 +210,7 @@ def step_term(s):
 
 def malformed_events(obs):
     return [e for evs in obs["events"] for e in evs
-            if e["pull"] < 0 or (e["k"] == "resp" and e["res"] not in ("ok", "err"))]
+            if e.get("res") != "cancelled" and (e["pull"] < 0 or (e["k"] == "resp" and e["res"] not in ("ok", "err")))]
 
 
 def term(sc, obs):
@@ -168,12 +221,14 @@ def term(sc, obs):
         for e in step_evs:
             if e["k"] == "pull":
                 l.append("IPull %d %d" % (img_no(e["image"]), e["pull"]))
+            elif e["res"] == "cancelled":
+                l.append("IGone %d %d" % (e["caller"], img_no(e["image"])))
             else:
                 l.append("IResp %d %d %d %s" % (e["caller"], img_no(e["image"]), e["pull"], cB(e["res"] == "ok")))
         evs.append(cL(l))
     order = []
     for s in steps:
-        if s["image"] not in order:
+        if s["op"] != "cancel" and s["image"] not in order:
             order.append(s["image"])
     pend = {p["image"]: p["callers"] for p in obs["pending"]}
     pend_t = cL([cP(cN(img_no(i)), cL([cN(c) for c in pend.get(i, [])])) for i in order])
@@ -186,7 +241,7 @@ def classify(sc, obs):
     or some image was pulled again after a broadcast."""
     steps = sc["steps"]
     key = tuple((s["op"], s["image"], s.get("result", "")) for s in steps) + tuple(obs.get("overlap", []))
-    joined = any(n >= 2 for n in obs["counts"]) or any(s["op"] == "overlap" for s in steps)
+    joined = any(n >= 2 for n in obs["counts"]) or any(s["op"] in ("overlap", "cancel") for s in steps)
     pulls = {}
     for evs in obs["events"]:
         for e in evs:
@@ -195,14 +250,43 @@ def classify(sc, obs):
     return key, joined or any(v >= 2 for v in pulls.values())
 
 
+def inconclusive(o):
+    return "obs" in o and o["obs"].get("stuck", -1) < 0 and any("timeout" in f for f in o["obs"]["flags"])
+
+
 def evaluate(run, scs, outs, tag, samples):
     """Judges (scenario, observation) pairs in Coq. Returns number of concrete violations found."""
     terms, idx, concrete = [], [], 0
+    # a harness wait that ran into its fallback timeout says nothing about the code: run those schedules again, alone
+    for attempt in range(2):
+        again = [i for i, o in enumerate(outs) if inconclusive(o)]
+        if not again or tag == "race":
+            break
+        run.cov["retried_after_timeout"] = run.cov.get("retried_after_timeout", 0) + len(again)
+        for i, o in zip(again, vlib.run_harness("reqmgr", [scs[i] for i in again], par=1)):
+            outs[i] = o
     for i, (sc, o) in enumerate(zip(scs, outs)):
         if "obs" not in o:
             if "concurrent map" in json.dumps(o):
                 continue    # Go's fatal error on unsynchronised map access: reported by the race stage
             run.violation("corr:C20/reqmgr harness error", {"scenario": sc, "out": o}, False)
+            continue
+        if any("timeout" in f for f in o["obs"]["flags"]) and o["obs"].get("stuck", -1) < 0:
+            # a wait of the harness ran into its (long) fallback timeout: inconclusive, never a verdict on the code
+            run.violation("corr:C20/reqmgr harness timeout", {"scenario": sc, "impl": o["obs"]}, False)
+            continue
+        if o["obs"].get("stuck", -1) >= 0:
+            # watchdog: nothing can move any more; the schedule was aborted after that step
+            pend = [c for p in o["obs"]["pending"] for c in p["callers"]]
+            if o["obs"].get("blocked"):
+                run.violation("C20 broadcast blocked while holding inFlightLock: waiting callers are never answered and no "
+                              "later Pull can start a fresh pull", {"scenario": sc, "impl": o["obs"]}, True)
+                concrete += 1
+            elif pend:
+                run.violation("C20 RequestManager stuck: callers wait forever", {"scenario": sc, "impl": o["obs"]}, True)
+                concrete += 1
+            else:
+                run.violation("corr:C20/reqmgr harness stuck", {"scenario": sc, "impl": o["obs"]}, False)
             continue
         bad = malformed_events(o["obs"])
         if bad:
@@ -305,6 +389,9 @@ def check(run, tier, seed, replay=None):
         "against a concurrent Pull of the same image is TESTED (overlap steps: broadcast stalled on an extra unbuffered "
         "receiver, Pull issued meanwhile, joint observation must be linearizable against the model), not proved; "
         "overlaps inside handleRequest are not forced",
+        "context cancellation: on the current code Pull ignores its context while waiting, so a cancel step is a no-op "
+        "in the model and the cancelled caller stays blocked; the monitor also accepts an early return of the cancelled "
+        "caller (exempt from exactly-once) but nobody else's; the scripted pull function ignores the context",
         "handleResponse(img) is only called by the goroutine started by handleRequest(img) (schedules are well-formed); "
         "the scripted pull function does not panic",
         "linearisation: a step is over when the accessor (under inFlightLock) shows the registration / deletion and every "
@@ -328,11 +415,14 @@ def check(run, tier, seed, replay=None):
         "call again) up to length %d over 3 callers x 2 images x ok/err, each drained by the harness at the end; seeded random "
         "well-formed schedules up to length %d over <=6 callers x <=3 images; overlap variants: for EVERY Done of every "
         "exhaustive schedule up to length %d the schedule with that Done overlapped by a Pull of the same image (issued while "
-        "the broadcast is stalled), plus random schedules with a third of the Dones overlapped%s. Stops after the first "
+        "the broadcast is stalled), plus random schedules with a third of the Dones overlapped; cancel variants: every "
+        "exhaustive schedule up to length %d with one context cancellation inserted at every position for every caller "
+        "blocked there, plus random schedules with cancels and overlaps%s. A per-schedule watchdog reports a schedule after "
+        "which nothing can move (blocked broadcast) with the schedule as replay. Stops after the first "
         "stage with a concrete violation. non-trivial = a request joined a running pull, an image was pulled again after a "
         "broadcast, or a step overlapped; distinct = (op, image, result) sequence with caller ids erased + what the "
         "overlapping Pull was seen doing"
-        % ((5, 20, 5, "") if tier == "quick" else (7, 60, 6, "; a sample re-run under go build -race with unsynchronised caller mutation")))
+        % ((5, 20, 5, 4, "") if tier == "quick" else (7, 60, 6, 5, "; a sample re-run under go build -race with unsynchronised caller mutation")))
 
     if replay:
         sc = json.load(open(replay))["replay"]["scenario"]
@@ -353,6 +443,11 @@ def check(run, tier, seed, replay=None):
     ov += sprinkle_overlaps(r, random_schedules(r, 100 if tier == "quick" else 1500, 20 if tier == "quick" else 60), 0.34)
     assert all(well_formed(s) for s in ov[:2000])
     stages.append(("overlap", [{"steps": s} for s in ov]))
+    cv = cancel_variants(exhaustive(4 if tier == "quick" else 5))
+    cv += sprinkle_cancels(r, sprinkle_overlaps(r, random_schedules(r, 100 if tier == "quick" else 1500,
+                                                                    20 if tier == "quick" else 60), 0.2), 0.2)
+    assert all(well_formed(s) for s in cv[:2000])
+    stages.append(("cancel", [{"steps": s} for s in cv]))
     for tag, scs in stages:
         outs = vlib.run_harness("reqmgr", scs, par=8)
         if evaluate(run, scs, outs, tag, samples):
@@ -362,7 +457,8 @@ def check(run, tier, seed, replay=None):
     if tier == "thorough":
         rs = [{"steps": s} for s in CORPUS] + [{"steps": s} for s in exhaustive(4)] + \
              [{"steps": s} for s in random_schedules(r, 300, 40)] + \
-             [{"steps": s} for s in overlap_variants(exhaustive(4))]
+             [{"steps": s} for s in overlap_variants(exhaustive(4))] + \
+             [{"steps": s} for s in cancel_variants(exhaustive(3))]
         outs, concrete = race_stage(run, rs)
         if outs and not concrete:
             evaluate(run, [dict(sc, unsync=True) for sc in rs], outs, "race", samples)
